@@ -211,6 +211,44 @@ theorem dispatch_total :
   intro t ht
   simp [dispatch, ht]
 
+/-- the second documented entry point, `load_catalog(fname, loader=f)`: whatever accepted `type` is given (the default
+    'csep-csv', the matching one, or another format's), the reader that runs is the one the caller passed — never the one
+    registered for `type` — and for the text formats the catalog class is `CSEPCatalog` all the same. -/
+theorem explicit_loader_wins (l : String) :
+    (∀ t ∈ allowedTypes, ∃ cls, selectLoader t (some l) = .use cls (some l)) ∧
+    (∀ p ∈ textFormats, selectLoader p.1 (some l) = .use "CSEPCatalog" (some l)) ∧
+    selectLoader "ingv_emrcmt" (some l) = .use "CSEPCatalog" (some l) := by
+  refine ⟨?_, ?_, ?_⟩
+  · intro t ht
+    simp only [allowedTypes, List.mem_cons, List.not_mem_nil, or_false] at ht
+    rcases ht with rfl | rfl | rfl | rfl | rfl | rfl | rfl <;> exact ⟨_, rfl⟩
+  · intro p hp
+    simp only [textFormats, List.mem_cons, List.not_mem_nil, or_false] at hp
+    rcases hp with rfl | rfl | rfl | rfl | rfl <;> rfl
+  · rfl
+
+/-- without a loader the selection is the dispatch table: registered reader for an accepted type, ValueError otherwise;
+    so both entry points reach the same reader when the caller passes the reader registered for the format. -/
+theorem default_loader_is_registered (t : String) :
+    selectLoader t none = (match dispatch t with | some (cls, r) => .use cls r | none => .valueError) ∧
+    (∀ p ∈ textFormats, selectLoader p.1 none = selectLoader "csep-csv" (some p.2)) := by
+  constructor
+  · unfold selectLoader dispatch
+    by_cases h : allowedTypes.contains t = true
+    · have hm : t ∈ allowedTypes := by simpa using h
+      simp only [allowedTypes, List.mem_cons, List.not_mem_nil, or_false] at hm
+      rcases hm with rfl | rfl | rfl | rfl | rfl | rfl | rfl <;> decide
+    · have hm : t ∉ allowedTypes := by simpa using h
+      simp [hm]
+  · intro p hp
+    simp only [textFormats, List.mem_cons, List.not_mem_nil, or_false] at hp
+    rcases hp with rfl | rfl | rfl | rfl | rfl <;> rfl
+
+example : selectLoader "csep-csv" (some "zmap_ascii") = .use "CSEPCatalog" (some "zmap_ascii") ∧
+    selectLoader "zmap" (some "my_loader") = .use "CSEPCatalog" (some "my_loader") ∧
+    selectLoader "zmap" none = .use "CSEPCatalog" (some "zmap_ascii") ∧
+    selectLoader "no-such-type" none = .valueError := by decide +kernel
+
 /-- nothing is de-duplicated (ZMAP): a file that lists one well-formed record `n` times — identical in every column,
     trailing columns included — loads as `n` events, all equal to that record's event. -/
 theorem decode_zmap_repeated (n : Nat) (z : SecEvent × Rat × List Rat) (h : z.1.wf ∧ 0 ≤ z.2.1 ∧ z.2.1 < 1) :
